@@ -120,6 +120,8 @@ func (t Tmpl) onlyOpaque() bool {
 const maxTmpls = 96
 
 type keyEvaluator struct {
+	// fnBind: function-typed parameters of the callee being inlined, bound to the function value of the call site
+	fnBind map[*ssa.Parameter]ssa.Value
 	c         *Ctx
 	undecide  []string // reasons collected while evaluating
 	fieldMemo map[string][]Tmpl
@@ -422,10 +424,32 @@ func (k *keyEvaluator) evalCall(call *ssa.Call, idx int, env kenv, depth int, bu
 		return k.opaque("builtin "+b.Name(), call)
 	}
 	f := staticCallee(call)
+	off := 0
+	if f == nil && !cc.IsInvoke() {
+		// a call through a function-typed parameter that the call site bound to a library function or
+		// to a method value (vRange.startKey(idx.getKey) calling enc(r.Start))
+		if p, ok := cc.Value.(*ssa.Parameter); ok && k.fnBind != nil {
+			if bv := k.fnBind[p]; bv != nil {
+				if g := closureFn(bv); g != nil {
+					gd := k.c.declared(g)
+					if k.c.IsLib(gd) && len(gd.Blocks) > 0 {
+						f = gd
+						off = len(gd.Params) - len(cc.Args)
+						if off < 0 {
+							f, off = nil, 0
+						}
+					}
+				}
+			}
+		}
+	}
 	if f == nil {
 		return k.opaque("call "+calleeFullName(call), call)
 	}
 	full := calleeFullName(call)
+	if off > 0 || (staticCallee(call) == nil) {
+		full = k.c.fname(f)
+	}
 	switch full {
 	case "(*bytes.Buffer).Bytes", "(*bytes.Buffer).String", "(*strings.Builder).String":
 		if t, ok := k.builderContents(call, env, depth, busy); ok {
@@ -514,11 +538,29 @@ func (k *keyEvaluator) evalCall(call *ssa.Call, idx int, env kenv, depth int, bu
 		return k.opaque("call "+full, call)
 	}
 	nenv := kenv{}
+	savedBind := k.fnBind
+	newBind := map[*ssa.Parameter]ssa.Value{}
+	for pk, pv := range savedBind {
+		newBind[pk] = pv
+	}
 	for i, p := range f.Params {
-		if i < len(cc.Args) && (isStringOrBytes(p.Type()) || isIntType(p.Type())) {
-			nenv[p] = k.evalArg(cc.Args[i], env, depth, busy)
+		ai := i - off
+		if ai < 0 || ai >= len(cc.Args) {
+			continue
+		}
+		if isStringOrBytes(p.Type()) || isIntType(p.Type()) {
+			nenv[p] = k.evalArg(cc.Args[ai], env, depth, busy)
+		}
+		if _, isSig := p.Type().Underlying().(*types.Signature); isSig {
+			// what the caller's own bound parameter stands for is handed on as it is
+			if cp, ok := cc.Args[ai].(*ssa.Parameter); ok && savedBind[cp] != nil {
+				newBind[p] = savedBind[cp]
+			} else {
+				newBind[p] = cc.Args[ai]
+			}
 		}
 	}
+	k.fnBind = newBind
 	var out []Tmpl
 	for _, r := range returnsOf(f) {
 		rv, ok := returnedValue(r, idx)
@@ -527,6 +569,7 @@ func (k *keyEvaluator) evalCall(call *ssa.Call, idx int, env kenv, depth int, bu
 		}
 		out = union(out, k.eval(rv, nenv, depth+1, busy))
 	}
+	k.fnBind = savedBind
 	// drop the nil alternative of error paths when a real key exists
 	if len(out) > 1 {
 		var nn []Tmpl
